@@ -1,6 +1,7 @@
 """C01 — Reader returns calibrated voltages aligned with the probe geometry.
 Proofs in coq/C01; correspondence and oracle against the real spikeglx.Reader
 (imported through PYTHONPATH, so IBLNPX_REPO selects the copy under test)."""
+import base64
 import glob
 import json
 import logging
@@ -600,12 +601,17 @@ def geometry_clauses(ctx, rec, sr, su, sort, desc):
     return exp
 
 
+def d_b64(rec):
+    if getattr(rec, "_b64", None) is None:
+        rec._b64 = base64.b64encode(np.ascontiguousarray(rec.D).tobytes()).decode()
+    return rec._b64
+
+
 def describe(rec, sort, case):
     return {"label": rec.label, "meta_text": rec.text, "fs": rec.fs, "ns": rec.ns, "nc": rec.nc,
             "cbin": rec.cbin, "chunk": rec.chunk, "sort": sort, "api": case["api"] if case else None,
             "sels": case["sels"] if case else None,
-            "call": call_str(case) if case else None, "D": rec.D.tolist() if rec.D.size <= 600 else None,
-            "D_seed_note": "D is regenerated from the run seed when not stored"}
+            "call": call_str(case) if case else None, "D_int16_b64": d_b64(rec)}
 
 
 def call_str(case):
@@ -766,10 +772,7 @@ def replay(ctx, data):
     case = {"api": inp["api"], "sels": [tuple(s) for s in inp["sels"]]}
     tdir = common.tmpdir("C01_")
     try:
-        if inp.get("D") is not None:
-            D = np.array(inp["D"], dtype=np.int16).reshape(inp["ns"], inp["nc"])
-        else:
-            D = rand_D(np.random.default_rng(0), inp["ns"], inp["nc"])
+        D = np.frombuffer(base64.b64decode(inp["D_int16_b64"]), dtype=np.int16).reshape(inp["ns"], inp["nc"]).copy()
         rec = Recording(tdir, "replay", inp["meta_text"], inp["fs"], inp["ns"], inp["nc"], D, inp["cbin"],
                         inp["chunk"], inp["label"])
         sr, su = rec.open(inp["sort"]), rec.open(False)
